@@ -105,6 +105,16 @@ theorem txPre_length (parent : Nat) (tx : Tx) :
 theorem txPre_noHa (parent : Nat) (tx : Tx) : (txPre parent tx).all noHa = true := by
   cases hs : tx.seg <;> simp [txPre, hs, noHa]
 
+/-- the steps of one transaction before / from the publish point -/
+theorem take_txSteps_pre (h : Nat) (tx : Tx) (n : Nat) (hn : n ≤ (txPre h tx).length) :
+    (txSteps h tx).take n = (txPre h tx).take n := by
+  rw [txSteps_split, List.take_append_of_le_length hn]
+
+theorem take_txSteps_post (h : Nat) (tx : Tx) (n : Nat) (hn : (txPre h tx).length ≤ n) :
+    (txSteps h tx).take n = txPre h tx ++ (txPost h tx).take (n - (txPre h tx).length) := by
+  rw [txSteps_split, List.take_append]
+  rw [List.take_of_length_le hn]
+
 /-- the files after the object writes -/
 def afterPre (fs : Fs) (h : Nat) (tx : Tx) : Fs :=
   { fs with ops := (tx.op, ⟨[h], tx.view⟩) :: fs.ops, views := (tx.view, tx.tree) :: fs.views,
